@@ -94,7 +94,14 @@ func (f faultWriter) around(do func() error, consume func()) error {
 		}
 		time.Sleep(300 * time.Microsecond)
 	}
-	close(answered[f.idx])
+	// (the same member may be called twice in one step by a defective unifier)
+	st.mu.Lock()
+	select {
+	case <-answered[f.idx]:
+	default:
+		close(answered[f.idx])
+	}
+	st.mu.Unlock()
 	return err
 }
 
@@ -650,6 +657,29 @@ func faultyUpload(rnd *rand.Rand, cat *Catalog, r string, ids []string) []UStep 
 		u(Op{Op: "Cancel", R: r, U: id}, rnd.Intn(2), rnd.Intn(3)-1)
 		u(Op{Op: "Cancel", R: r, U: id}, -1, -1)
 	}
+	u(Op{Op: "Commit", R: r, U: id, DD: b.ID}, -1, -1)
+	u(Op{Op: "ResolveBlob", R: r, C: b.ID}, -1, -1)
+	// 4. a write fails on one member while the other appends: the members have diverged; the
+	// caller closes and resumes, where it believes the upload stands or "wherever you are"
+	var long []*Content
+	for _, c := range blobs {
+		if len(c.Elems) >= 2 {
+			long = append(long, c)
+		}
+	}
+	b = long[rnd.Intn(len(long))]
+	id = ids[2]
+	cut := 1 + rnd.Intn(len(b.Elems)-1)
+	u(Op{Op: "PushBlobChunked", R: r, U: id, Chunk: pick3(rnd)}, -1, -1)
+	u(Op{Op: "Write", R: r, U: id, Data: b.Elems[:cut]}, -1, -1)
+	u(Op{Op: "Write", R: r, U: id, Data: b.Elems[cut:]}, rnd.Intn(2), rnd.Intn(3)-1)
+	u(Op{Op: "Close", R: r, U: id}, -1, -1)
+	off := len(elemsToBytes(b.Elems[:cut]))
+	if rnd.Intn(2) == 0 {
+		off = -1
+	}
+	u(Op{Op: "Resume", R: r, U: id, Off: off, Chunk: pick3(rnd)}, -1, -1)
+	u(Op{Op: "Write", R: r, U: id, Data: b.Elems[cut:]}, -1, -1)
 	u(Op{Op: "Commit", R: r, U: id, DD: b.ID}, -1, -1)
 	u(Op{Op: "ResolveBlob", R: r, C: b.ID}, -1, -1)
 	return steps
